@@ -538,6 +538,12 @@ namespace hgraph::ts_data_plan_factory_detail
                 return ops.tracking_impl(ops.context, values_.value_memory(slot))->last_modified_time != MIN_DT;
             }
 
+            [[nodiscard]] bool child_modified_at(std::size_t slot, DateTime modified_time) const
+            {
+                const auto &ops = element_type_.ops_ref();
+                return ops.tracking_impl(ops.context, values_.value_memory(slot))->last_modified_time == modified_time;
+            }
+
             void reserve(std::size_t capacity)
             {
                 keys_.reserve_to(capacity);
@@ -570,6 +576,11 @@ namespace hgraph::ts_data_plan_factory_detail
                     value_published_.set(result.slot);
                     added_.set(result.slot);
                 }
+                // A key removed and re-inserted within the cycle in which its
+                // element was already written: the later write is not the first
+                // for this time and will not notify us again, so the entry must
+                // be marked modified here (remove_key cleared the bit).
+                if (child_modified_at(result.slot, modified_time)) { modified_.set(result.slot); }
                 (void)key_set_tracking_.record_modified(modified_time);
                 return mutation_result(result.slot, result.constructed);
             }
@@ -597,6 +608,11 @@ namespace hgraph::ts_data_plan_factory_detail
                     value_published_.set(result.slot);
                     added_.set(result.slot);
                 }
+                // A key removed and re-inserted within the cycle in which its
+                // element was already written: the later write is not the first
+                // for this time and will not notify us again, so the entry must
+                // be marked modified here (remove_key cleared the bit).
+                if (child_modified_at(result.slot, modified_time)) { modified_.set(result.slot); }
                 (void)key_set_tracking_.record_modified(modified_time);
                 return mutation_result(result.slot, result.constructed);
             }
